@@ -5,7 +5,10 @@
 // slow origin, response write to a slow reader, CONNECT dial and tunnel copy, with 1-32 connections in
 // different phases and clients that vanish. The observed history is fed to the Lean acceptor
 // (lean/FwdVerif/Driver/C11.lean: is it a behaviour of Model/C11.lean?) and the property's clauses are
-// evaluated on it.
+// evaluated on it. A second family of cases (matrix.go) crosses the shutdown-timeout configuration
+// {0 = no limit, shorter than the in-flight work, long} with in-flight work that outlasts a short
+// timeout (slow origin, large body to a slow reader, open tunnel) on rigs a and b, and drives the API
+// server (forwarder.HTTPServer, rig "s": same shutdownContext) the same way (server.go).
 package c11
 
 import (
@@ -26,13 +29,14 @@ func init() {
 
 // Case is one shutdown of one proxy instance.
 type Case struct {
-	Kind          string       `json:"kind"`           // "a" = forwarder.HTTPProxy.Run, "b" = martian.Proxy Serve/Shutdown/Close, "c" = accept/registration race sampler
-	TLS           bool         `json:"tls"`            // TLS listener
-	PP            bool         `json:"pp,omitempty"`   // a: PROXY-protocol listener (every client sends a v1 header first)
-	TimeoutMs     int          `json:"timeout_ms"`     // shutdown timeout (a: config; b: context deadline)
-	Op            string       `json:"op"`             // b: "shutdown" | "close" | "shutdown+close" (Close called while Shutdown waits)
-	ListenerFirst bool         `json:"listener_first"` // b: close the listener before Shutdown (as HTTPProxy.run does) or after it returned
-	Trigger       string       `json:"trigger"`        // "ready": once every script reached its phase; "race": DelayUs after launching them
+	Kind          string       `json:"kind"`             // "a" = forwarder.HTTPProxy.Run, "b" = martian.Proxy Serve/Shutdown/Close, "c" = accept/registration race sampler, "s" = forwarder.HTTPServer.Run (API server)
+	TLS           bool         `json:"tls"`              // TLS listener
+	PP            bool         `json:"pp,omitempty"`     // a: PROXY-protocol listener (every client sends a v1 header first)
+	TimeoutMs     int          `json:"timeout_ms"`       // shutdown timeout (a, s: config, 0 = no limit as --shutdown-timeout documents; b: context deadline, 0 = a context that is never done)
+	Matrix        string       `json:"matrix,omitempty"` // shutdown-timeout matrix (matrix.go): "none" (timeout 0) | "short" (shorter than the in-flight work) | "long"; "" = general generator
+	Op            string       `json:"op"`               // b: "shutdown" | "close" | "shutdown+close" (Close called while Shutdown waits)
+	ListenerFirst bool         `json:"listener_first"`   // b: close the listener before Shutdown (as HTTPProxy.run does) or after it returned
+	Trigger       string       `json:"trigger"`          // "ready": once every script reached its phase; "race": DelayUs after launching them
 	DelayUs       int          `json:"delay_us"`
 	Conns         []ConnScript `json:"conns"`
 	// rig "c" (micro.go): Trials tiny shutdowns over an in-memory listener, parameters drawn from MicroSeed
@@ -56,7 +60,7 @@ type ConnScript struct {
 	Phase       string `json:"phase"`
 	DelayMs     int    `json:"delay_ms,omitempty"`
 	Gate        bool   `json:"gate,omitempty"`
-	After       string `json:"after,omitempty"` // once closing is known: "send" a request | "close" | "wait" | "oend" (origin ends the tunnel)
+	After       string `json:"after,omitempty"` // once closing is known: "send" a request | "connect" (send a CONNECT) | "close" | "wait" | "oend" (origin ends the tunnel)
 	Vanish      bool   `json:"vanish,omitempty"`
 	BodyKB      int    `json:"body_kb,omitempty"`
 	ReqClose    bool   `json:"req_close,omitempty"`
@@ -65,6 +69,8 @@ type ConnScript struct {
 	Sentinel    bool   `json:"sentinel,omitempty"` // idle connection the driver uses to learn that closing is set
 	Silent      bool   `json:"silent,omitempty"`   // accept: connects and sends nothing
 	NoBody      bool   `json:"no_body,omitempty"`  // origin: the in-flight request is answered 204 (martian's header-only writer)
+	PauseMs     int    `json:"pause_ms,omitempty"` // slowread: pause of the reader before each 64 KiB (0 = 2 ms)
+	HoldMs      int    `json:"hold_ms,omitempty"`  // tunnel: echo traffic goes on for this long after closing is known, before After
 }
 
 func (c *Case) key() string { b, _ := json.Marshal(c); return string(b) }
@@ -118,6 +124,9 @@ func gen(r *core.Rand) *Case {
 			s.Phase = "origin"
 		}
 		s.After = core.Pick(r, []string{"send", "send", "close", "close", "wait"})
+		if s.After == "send" && i%3 == 2 {
+			s.After = "connect" // the late request is a CONNECT (no extra draw: the cases of a seed stay what they were)
+		}
 		switch s.Phase {
 		case "accept":
 			s.StartUs = core.Pick(r, []int{0, 0, 50, 200, 1000, 3000})
